@@ -17,18 +17,25 @@ def step (_ : Unit) (line : String) : Unit × String :=
   | ["lf", pol, mx, codes, cnt, last, _] =>
     match mx.toInt?, cnt.toNat? with
     | some m, some c =>
-      let cs := (codes.splitOn ",").filterMap (·.toInt?)
+      -- `K` / `T`: the command ends by a signal; Go reports exit code -1 for it
+      let cs := (codes.splitOn ",").filterMap fun c => if c == "K" || c == "T" then some (-1 : Int) else c.toInt?
       let n := attempts pol m cs
       let nl := last == "1"
       let o := showList "out" (expected n c nl)
       let e := showList "err" (expected n c false)
-      let model := s!"status=Completed restarts={n - 1} mem_out={o} mem_err={e} file_out={o} file_err={e}"
+      let lastCode : Int := cs.getD (n - 1) 0
+      let run := if pol == "exit_on_failure" && lastCode != 0 then s!"exit:{lastCode}" else "ok"
+      let model := s!"status=Completed restarts={n - 1} mem_out={o} mem_err={e} file_out={o} file_err={e} exit={lastCode} run={run}"
       -- the property on the implementation's answer, part by part
       let fails := (if fieldOf impl "mem_out" != o then ["C11:stdout-lines-in-memory-log"] else []) ++
         (if fieldOf impl "mem_err" != e then ["C11:stderr-lines-in-memory-log"] else []) ++
         (if fieldOf impl "file_out" != o then ["C11:stdout-lines-in-log-file"] else []) ++
-        (if fieldOf impl "file_err" != e then ["C11:stderr-lines-in-log-file"] else [])
-      ((), model ++ " ||| " ++ (if fails.isEmpty then "ok" else "bad:C11:" ++ "; ".intercalate fails))
+        (if fieldOf impl "file_err" != e then ["C11:stderr-lines-in-log-file"] else []) ++
+        (if fieldOf impl "restarts" != toString (n - 1) then ["C02:number-of-relaunches-differs-from-the-policy (a command ended by a signal has failed)"] else []) ++
+        (if fieldOf impl "exit" != toString lastCode then ["C09:reported-exit-code-is-not-the-last-command's (non-zero for a command ended by a signal)"] else []) ++
+        (if fieldOf impl "run" != run then ["C04:project-exit-code (exit_on_failure: the code of the process that failed, also when it was ended by a signal)"] else [])
+      let ids := ["C11", "C02", "C09", "C04"].filter fun p => fails.any (·.startsWith p)
+      ((), model ++ " ||| " ++ (if fails.isEmpty then "ok" else "bad:" ++ ",".intercalate ids ++ ":" ++ "; ".intercalate fails))
     | _, _ => ((), "bad-op")
   | _ => ((), "bad-op")
 
